@@ -93,8 +93,14 @@ func (r *R) F64() float64 {
 
 var Zones = []*time.Location{time.UTC, time.FixedZone("", 0), time.FixedZone("X", 5*3600+1800), time.FixedZone("Y", -(9*3600 + 45*60)), time.FixedZone("odd", 3600+17*60), time.FixedZone("neg", -1*60)}
 
+// ExtremeTimes switches on instants outside years 0..9999 (which RFC 3339 cannot carry).
+var ExtremeTimes = false
+
 func (r *R) Time() time.Time {
 	loc := Pick(r, Zones)
+	if ExtremeTimes && r.P(6) {
+		return Pick(r, []time.Time{time.Date(10000, 1, 1, 0, 0, 0, 0, time.UTC), time.Unix(1<<40, 0).UTC(), time.Date(-1, 12, 31, 23, 59, 59, 0, time.UTC), time.Date(-44, 3, 15, 12, 0, 0, 0, loc), time.Date(123456, 7, 8, 9, 10, 11, 12, loc), {}, time.Date(0, 1, 1, 0, 0, 0, 0, time.UTC), time.Date(9999, 12, 31, 23, 59, 59, 999999999, time.UTC)})
+	}
 	switch r.Intn(6) {
 	case 0:
 		return time.Date(2024, 2, 29, 13, 4, 5, 123456789, loc)
